@@ -1004,6 +1004,9 @@ class Footnote(BlockToken):
                 escaped = True
             elif c == closing and not escaped:
                 return offset, i + 1, string[offset + 1:i]
+            elif c == '(' and closing == ')' and not escaped:
+                # a title in parentheses may contain a parenthesis only if it is escaped
+                return None
             elif escaped:
                 escaped = False
         return None
